@@ -206,3 +206,52 @@ package starlark
 //@   ensures int_float: depth >= 1 && typeis(x, Int) && typeis(y, Float) ==> err == nil && result0 == tw(op, ifcmp(val(as(x, Int)), as(y, Float)))
 //@   ensures float_int: depth >= 1 && typeis(x, Float) && typeis(y, Int) ==> err == nil && result0 == tw(op, -ifcmp(val(as(y, Int)), as(x, Float)))
 //@   ensures depth_guard: depth < 1 ==> err != nil
+
+// ---- index normalisation (C13). Python rule: a negative index counts from the end;
+// the result is then clamped to the legal range for the stride's direction.
+//@ specfn clamp(v, lo, hi int) int = ite(v < lo, lo, ite(v > hi, hi, v))
+//@ specfn absent(v iface) bool = isnil(v) || isNone(v)
+//@ specfn norm(v iface, n int, dflt int) int = ite(absent(v), dflt, ite(val(as(v, Int)) < 0, val(as(v, Int)) + n, val(as(v, Int))))
+//@ specfn seqlen(x iface) int
+//@ specfn slsel(x iface, first int, count int, step int) iface
+
+//@ func asIndex
+//@   prop C13
+//@   requires len >= 0 && result != nil
+//@   modifies *result
+//@   nopanic
+//@   ensures unchanged: absent(v) ==> err == nil && *result == old(*result)
+//@   ensures anyint: !absent(v) && typeis(v, Int) ==> err == nil && *result == norm(v, len, 0)
+//@   ensures nonint: !absent(v) && !typeis(v, Int) ==> err != nil
+
+//@ func indices
+//@   prop C13
+//@   requires len >= 0
+//@   nopanic
+//@   ensures err == nil ==> start == clamp(norm(start_, len, 0), 0, len) && end == clamp(norm(end_, len, len), 0, len)
+//@   ensures err == nil ==> (absent(start_) || typeis(start_, Int)) && (absent(end_) || typeis(end_, Int))
+
+//@ func Sliceable.Len
+//@   pure
+//@   ensures result >= 0 && result == seqlen(self)
+// Precondition of Sliceable.Slice as its call site establishes it (the doc comment promises
+// start < n for negative strides, but x[:k:-1] with k >= n passes start == end == k: an empty
+// selection, so implementations never index with it). Its result is determined by the selected
+// index sequence  first, first+step, ... (count elements).
+//@ func Sliceable.Slice
+//@   requires step != 0
+//@   requires step > 0 ==> 0 <= start && start <= end && end <= seqlen(self)
+//@   requires step < 0 ==> -1 <= end && end <= start && (start < seqlen(self) || start == end)
+//@   pure
+//@   ensures result != nil && result == slsel(self, ite(rlen(start, end, step) > 0, start, 0), rlen(start, end, step), step)
+
+//@ specfn pystart(lo iface, n int, step int) int = ite(step > 0, clamp(norm(lo, n, 0), 0, n), clamp(norm(lo, n, n - 1), -1, n - 1))
+//@ specfn pystop(hi iface, n int, step int) int = ite(step > 0, clamp(norm(hi, n, n), 0, n), clamp(norm(hi, n, -1), -1, n - 1))
+//@ specfn pycount(lo iface, hi iface, n int, step int) int = rlen(pystart(lo, n, step), pystop(hi, n, step), step)
+//@ func slice
+//@   prop C13
+//@   requires x != nil && step_ != nil
+//@   nopanic
+//@   ensures pyslice: err == nil && isNone(step_) ==> result0 == slsel(x, ite(pycount(lo, hi, seqlen(x), 1) > 0, pystart(lo, seqlen(x), 1), 0), pycount(lo, hi, seqlen(x), 1), 1)
+//@   ensures pyslice_step: err == nil && !isNone(step_) ==> result0 == slsel(x, ite(pycount(lo, hi, seqlen(x), val(as(step_, Int))) > 0, pystart(lo, seqlen(x), val(as(step_, Int))), 0), pycount(lo, hi, seqlen(x), val(as(step_, Int))), val(as(step_, Int)))
+//@   ensures zero_step: !isNone(step_) && typeis(step_, Int) && val(as(step_, Int)) == 0 ==> err != nil
